@@ -55,7 +55,7 @@ def run(ctx):
     ctx.cov["rule"] = ("case = (engine, graph definition [, start set]); non-trivial when the growth function has >= 3 layers; distinct by canonical JSON")
     ctx.assumptions += ["bit-mask engine: documented domain = Cayley graphs of permutations, 8 < n <= 12, default encoding, generators moving the trailing positions "
                         "(a paint_gray call whose neighbours all fall into ONE chunk raises IndexError: outside the domain)"]
-    ctx.prove(extra=["AlgoRun", "NumpyBfs", "Bitmask", "PathRun"])
+    ctx.prove(extra=["AlgoRun", "NumpyBfs", "Bitmask", "BitmaskEngine", "PathRun"])
 
     # ---------------- NumPy engine vs model, main BFS and oracle ----------------
     cases, metas = [], []
@@ -160,15 +160,25 @@ def run(ctx):
     fams = [("lrx", PermutationGroups.lrx(9)), ("top_spin", PermutationGroups.top_spin(9)), ("pancake", PermutationGroups.pancake(9))]
     if not ctx.quick():
         fams += [("lx", PermutationGroups.lx(9)), ("cyclic_coxeter", PermutationGroups.cyclic_coxeter(9)), ("lrx10", PermutationGroups.lrx(10))]
-    for name, d in fams[: ctx.budget(2, 6)]:
+    # a Cayley graph of a random non-identity central permutation and a random (not inverse-closed) generator pair moving the last position
+    rp = G.rand_perm(rng, 9)
+    g1, g2 = G.rand_perm(rng, 9), G.rand_perm(rng, 9)
+    if g1[8] == 8 and g2[8] == 8:
+        g1[7], g1[8] = g1[8], g1[7]
+    fams.insert(1, ("random_pair_random_start", CayleyGraphDef.create([g1, g2], central_state=rp)))
+    bm_cases, bm_metas = [], []
+    for name, d in fams[: ctx.budget(3, 7)]:
         graph = CayleyGraph(d, device="cpu")
         for maxd in (10**6, 5):
-            case = {"engine": "bitmask", "family": name, "max_diameter": maxd}
+            case = {"engine": "bitmask", "family": name, "max_diameter": maxd, "generators": [list(map(int, p)) for p in d.generators_permutations],
+                    "central": [int(v) for v in d.central_state]}
             try:
                 got = [int(v) for v in bfs_bitmask(graph, max_diameter=maxd)]
             except Exception as ex:  # pylint: disable=broad-except
                 ctx.violation("property_fails", f"bfs_bitmask raised {type(ex).__name__} on {name}", case, True)
                 continue
+            bm_cases.append(f"({d.state_size}%nat, {cnll(case['generators'])}, {cnl(case['central'])}, {maxd}%N, {czl(got)})")
+            bm_metas.append(case)
             main = graph.bfs(max_diameter=maxd).layer_sizes
             ctx.case_seen(case, True)
             ctx.count("bitmask_engine_runs")
@@ -176,6 +186,29 @@ def run(ctx):
                 ctx.violation("property_fails", f"bfs_bitmask gives {got[:8]}..., the main BFS gives {main[:8]}... on {name}", case, True)
             if maxd == 10**6 and sum(got) != len(set(itertools.islice(itertools.permutations(range(1)), 1))) * 0 + sum(main):
                 ctx.violation("property_fails", "vertex counts differ", case, True)
+    # the whole-engine model (BitmaskEngine.v, proved to compute the true growth function) on the same runs: exact equality
+    bad = ctx.coq_failing("Base Perm BitmaskEngine", "", "nat * list (list nat) * list nat * N * list Z", bm_cases,
+                          "fun c => match c with (n, gens, start, maxd, got) => bitmask_growth_check_from n gens start maxd got end", "bmengine", shard=1, timeout=2400)
+    for i in bad[:3]:
+        ctx.violation("correspondence", "bit-mask engine model differs from the implementation", bm_metas[i], False)
+    ctx.cov["disagreements_checked"] += len(bm_cases)
+    ctx.count("bitmask_engine_model_runs", len(bm_cases))
+    # outside the documented domain the engine fails the way the model says: n = 8 (assertion), all generators fixing the trailing position (IndexError)
+    ecases, emetas = [], []
+    for nm, gens, n in (("n=8", [[1, 2, 3, 4, 5, 6, 7, 0], [1, 0, 2, 3, 4, 5, 6, 7]], 8),
+                        ("trailing position fixed", [[1, 2, 3, 4, 5, 6, 7, 0, 8], [1, 0, 2, 3, 4, 5, 6, 7, 8]], 9)):
+        try:
+            bfs_bitmask(CayleyGraph(CayleyGraphDef.create(gens), device="cpu"), max_diameter=3)
+            ctx.count("bitmask_outside_domain_no_error")
+            continue
+        except Exception as ex:  # pylint: disable=broad-except
+            en = {"AssertionError": "AssertionErr", "IndexError": "IndexErr", "KeyError": "KeyErr", "ValueError": "ValueErr"}.get(type(ex).__name__, "RuntimeErr")
+        ecases.append(f"({n}%nat, {cnll(gens)}, 3%N, {en})")
+        emetas.append({"engine": "bitmask", "outside_domain": nm, "error": en})
+    bad = ctx.coq_failing("Base Perm BitmaskEngine", "", "nat * list (list nat) * N * err", ecases,
+                          "fun c => match c with (n, gens, maxd, e) => bitmask_err_check n gens maxd e end", "bmerr", shard=1)
+    for i in bad[:2]:
+        ctx.violation("correspondence", "bit-mask engine model and implementation fail differently outside the documented domain", emetas[i], False)
     ctx.sample({"engine": "bitmask", "families": [f for f, _ in fams]})
 
 
